@@ -360,6 +360,24 @@ func judge(r *vh.Run, res *result) {
 		return
 	}
 
+	// With connection kills a member can hold two state objects for one offset (the delivery of the
+	// old session and the one of the new session); an acknowledgement of the old one can be sent in
+	// the new session (equal epoch numbers are not told apart) and lands on the new acquisition.
+	// Clauses that interpret "what was sent for this delivery" are then judged only for offsets
+	// the member received once.
+	type mpo struct {
+		m   string
+		p   int32
+		off int64
+	}
+	nDeliv := map[mpo]int{}
+	for _, m := range res.Members {
+		for _, d := range m.Deliveries {
+			nDeliv[mpo{m.Name, d.P, d.Offset}]++
+		}
+	}
+	unambiguous := func(d *delivery) bool { return kills == 0 || nDeliv[mpo{d.Member, d.P, d.Offset}] == 1 }
+
 	var nFlushJudged, nConfirmed, nAutoJudged, nCloseJudged, nFlushAcksJudged int
 	for _, m := range res.Members {
 		for _, d := range m.Deliveries {
@@ -398,7 +416,10 @@ func judge(r *vh.Run, res *result) {
 				continue
 			}
 			// ---- clause 3a: left unacknowledged => accepted at the next poll
-			if f.Auto {
+			if f.Auto && !unambiguous(d) {
+				r.Count("ambiguous_redelivered_offset_dontcare", 1)
+			}
+			if f.Auto && unambiguous(d) {
 				nAutoJudged++
 				// the first request after the poll call that names the offset carries this delivery's
 				// outcome (later ones belong to later deliveries of the same offset to this member)
@@ -414,14 +435,33 @@ func judge(r *vh.Run, res *result) {
 				}
 			}
 			// ---- clause 2: confirmed accept / reject is never delivered again
-			if f.Status == 1 || f.Status == 3 {
+			if (f.Status == 1 || f.Status == 3) && unambiguous(d) {
 				nConfirmed++
 				for _, a := range acqs[d.P] {
 					// a later acquisition: the fetch arrived after the confirming FlushAcks returned, or (a parked
 					// fetch acquires after it arrived) the delivery count went up in a run without session resets
 					later := a.Clock > fl.Ret || (kills == 0 && int32(a.R.DC) > d.DC)
 					if later && a.R.First <= d.Offset && d.Offset <= a.R.Last {
-						r.Violation("record delivered again after its accept/reject was confirmed without error",
+						sig := "record delivered again after its accept/reject was confirmed without error"
+						// which request carried the acknowledgement? piggybacked on a ShareFetch that came
+						// back without records = the shape in which kfake parks the fetch and loses the
+						// acknowledgement's error code (see checkParkedAckError)
+						for _, b := range blog {
+							if b.Member != m.Name || b.Clock <= f.At || b.Clock >= fl.Ret {
+								continue
+							}
+							covers := false
+							for _, ab := range b.Acks[d.P] {
+								covers = covers || (ab.First <= d.Offset && d.Offset <= ab.Last && ab.typeAt(d.Offset) == f.Status)
+							}
+							if covers {
+								if b.Key == 78 && len(b.Acq) == 0 {
+									sig = sigConfirmedParked
+								}
+								break
+							}
+						}
+						r.Violation(sig,
 							wit(fmt.Sprintf("member %s partition %d offset %d (delivery count %d) status %d decided at clock %d (auto=%v), confirmed by FlushAcks returning nil at %d; acquired again (delivery count %d) by %s in a ShareFetch that arrived at clock %d", m.Name, d.P, d.Offset, d.DC, f.Status, f.At, f.Auto, fl.Ret, a.R.DC, a.Member, a.Clock),
 								map[string]any{"delivery": d, "reacquired_in": a.Req.String(), "requests_touching_offset": touching(d.P, d.Offset), "requests": tail(m.Name, d.P, fl.Ret), "callbacks": cbTail(m, fl.Ret)}))
 						break
@@ -462,9 +502,10 @@ func judge(r *vh.Run, res *result) {
 						if s.finals == 1 {
 							s.first = b.String()
 						} else {
-							// the application's calls on this offset: renew followed by a terminal status is the
-							// window documented at shareAckState (drain snapshots the renew entry, the terminal
-							// ack re-appends the state, both requests read the terminal status)
+							// the application's calls on this offset: a renew followed by a terminal status (explicit,
+							// or the auto-accept of the next poll) is the window documented at shareAckState (a drain
+							// takes the renew entry, the terminal ack re-appends the state, both requests then read
+							// the terminal status)
 							sig := "final acknowledgement sent twice for one delivery"
 							var ds []*delivery
 							if m := members[b.Member]; m != nil {
@@ -473,9 +514,9 @@ func judge(r *vh.Run, res *result) {
 										continue
 									}
 									ds = append(ds, d)
-									for i, a := range d.Acks {
-										if a.Status == 4 && i+1 < len(d.Acks) && d.Acks[i+1].Status != 4 {
-											sig = "final acknowledgement sent twice for one delivery (Ack(renew) then terminal Ack racing the request build)"
+									for _, a := range d.Acks {
+										if a.Status == 4 {
+											sig = sigDoubleRenew
 										}
 									}
 								}
@@ -509,6 +550,10 @@ func judge(r *vh.Run, res *result) {
 			if d.Poll != last || !finals[d].OnClose {
 				continue
 			}
+			if !unambiguous(d) {
+				r.Count("ambiguous_redelivered_offset_dontcare", 1)
+				continue
+			}
 			types, reqs := sentBy(m.Name, d.P, d.Offset, m.CloseCall, res.EndClock+1)
 			wrong := false
 			released := false
@@ -537,7 +582,8 @@ func judge(r *vh.Run, res *result) {
 					closeSeen = true
 				}
 			}
-			anyErr, _ := window(m, d.P, m.CloseCall, res.EndClock+1)
+			// an entry made before Close (renew) may already have been dropped with an error callback
+			anyErr, _ := window(m, d.P, d.RetClock, res.EndClock+1)
 			if closeSeen && !anyErr && kills == 0 {
 				nCloseJudged++
 				if !released {
